@@ -11,10 +11,13 @@ be gone or its number re-used -- so every reference obtained from a stub
 internal signal reach the caller, or ending with reordering disabled are the
 failures.
 
-Cut: the reorder contract is instantiated with the identity permutation (the
-order itself does not change); that a retried operation is right under any
-new order is what the other properties prove for every order, and that held
-nodes keep their function through a real reordering is C07.
+Two reorder contracts: (a) identity permutation (the order itself does not
+change; all operations); (b) `permute=True`: after a firing the engine picks
+any permutation of the names and the manager state is replaced by a fresh
+arbitrary valid state over the new order in which every held node keeps its
+number and its function by name (that this is what a real reordering does is
+C07).  (b) is what exposes level numbers computed before the reordering and
+re-used after it.
 """
 import itertools
 import types
@@ -38,7 +41,7 @@ FUNCTIONS = ['dd.bdd._try_to_reorder', 'dd.bdd._ReorderingContext.__enter__',
              'dd.autoref.BDD.find_or_add', 'dd._copy.copy_bdd', 'dd._copy._copy_bdd']
 STUBS = ['find_or_add / _ite -> contracts that may raise the reordering request at any call',
          'dd.bdd.reorder -> contract: all references not externally held become stale (identity permutation)']
-CUTS = ['reorder contract instantiated with the identity permutation']
+CUTS = ['undecorated operations: reorder contract instantiated with the identity permutation only']
 
 OPS = ['ite', 'apply_and', 'quantify', 'forall_method', 'apply_forall', 'quantify_kw', 'cofactor', 'compose', 'rename', 'cube', 'var',
        'add_expr', 'image', 'preimage', 'copy_into', 'load', 'autoref_find_or_add',
